@@ -103,6 +103,23 @@ type ZEmbPtrBeforeOut struct {
 	*V5
 	ZBaseOut
 }
+// parameter / result objects that embed ANOTHER object whose type name is lower case (an unexported embedded field)
+type zcommonIn struct {
+	dig.In
+	A V0
+}
+type ZEmbLowerIn struct {
+	zcommonIn
+	B V1
+}
+type zcommonOut struct {
+	dig.Out
+	A V0
+}
+type ZEmbLowerOut struct {
+	zcommonOut
+	B V1
+}
 type ZNamedSlice []V0
 
 func (ZNamedSlice) M0() {}
@@ -131,6 +148,7 @@ var zooTypes = []reflect.Type{
 	reflect.TypeOf((*ZSrc)(nil)).Elem(), reflect.TypeOf((*ZSrc2)(nil)).Elem(), reflect.TypeOf(&V4{}), reflect.TypeOf(&V5{}),
 	reflect.TypeOf(ZEmbIfaceBeforeIn{}), reflect.TypeOf(ZEmbIfaceBeforeOut{}),
 	reflect.TypeOf(ZErrVal(0)), reflect.TypeOf(ZErrStruct{}), reflect.TypeOf(ZErrVal(0)), reflect.TypeOf(ZErrStruct{}),
+	reflect.TypeOf(ZEmbLowerIn{}), reflect.TypeOf(ZEmbLowerOut{}), reflect.TypeOf(ZEmbLowerIn{}), reflect.TypeOf(ZEmbLowerOut{}),
 }
 
 var tagValues = map[string][]string{
